@@ -6,7 +6,6 @@
 
 use core::iter::Peekable;
 use std::collections::HashSet;
-use std::num::IntErrorKind;
 
 use alloc::string::{String, ToString};
 use alloc::vec::Vec;
@@ -491,6 +490,27 @@ impl Type {
     }
 }
 
+/// The value of an integer literal the way rustc reads it: `_` separators, a radix prefix and a type suffix
+/// (`1_000`, `0x10`, `4usize`) are part of the literal.
+fn parse_int_literal(text: &str) -> Option<usize> {
+    if !text.starts_with(|c: char| c.is_ascii_digit()) {
+        return None;
+    }
+    let digits: String = text.chars().filter(|c| *c != '_').collect();
+    let digits = [
+        "usize", "u128", "u64", "u32", "u16", "u8", "isize", "i128", "i64", "i32", "i16", "i8",
+    ]
+    .iter()
+    .find_map(|suffix| digits.strip_suffix(suffix))
+    .unwrap_or(&digits);
+    match digits.get(..2) {
+        Some("0x") => usize::from_str_radix(&digits[2..], 16).ok(),
+        Some("0o") => usize::from_str_radix(&digits[2..], 8).ok(),
+        Some("0b") => usize::from_str_radix(&digits[2..], 2).ok(),
+        _ => digits.parse::<usize>().ok(),
+    }
+}
+
 pub fn next_visibility_modifier(
     source: &mut Peekable<impl Iterator<Item = TokenTree>>,
 ) -> Option<String> {
@@ -646,20 +666,11 @@ fn next_type<T: Iterator<Item = TokenTree> + Clone>(mut source: &mut Peekable<T>
 
         //need to cover both the const generic and literal case
         let len = source.peek().unwrap().to_string();
-        match len.parse::<usize>() {
-            Ok(val) => Some(Type {
+        match parse_int_literal(&len) {
+            Some(val) => Some(Type {
                 ident: Category::Array {
                     content_type: Box::new(next.clone()),
                     len: Some(ConstValType::Value(val as isize)),
-                },
-                wraps: Some(vec![next]),
-                ref_type: None,
-                as_other: None,
-            }),
-            Err(err) if err.kind() == &IntErrorKind::Zero => Some(Type {
-                ident: Category::Array {
-                    content_type: Box::new(next.clone()),
-                    len: Some(ConstValType::Value(0)),
                 },
                 wraps: Some(vec![next]),
                 ref_type: None,
@@ -1331,14 +1342,14 @@ fn next_const_generic<T: Iterator<Item = TokenTree> + Clone>(
     );
     let cg_type = next_type(source).expect("Missing const generic type after 'colon'");
     if let Some(_) = next_exact_punct(source, "=") {
-        if let Ok(default_value) = source
-            .peek()
-            .expect("default should follow equal for const generic")
-            .to_string()
-            .parse::<isize>()
-        {
+        if let Some(default_value) = parse_int_literal(
+            &source
+                .peek()
+                .expect("default should follow equal for const generic")
+                .to_string(),
+        ) {
             source.next();
-            (name, cg_type, Some(ConstValType::Value(default_value)))
+            (name, cg_type, Some(ConstValType::Value(default_value as isize)))
         } else {
             let def =
                 next_type(source).expect("must have either a value or other const as default");
